@@ -140,7 +140,7 @@ def _single(draw, max_rows):
                 pairs.append([target, {"how": "callable_rid"}])
         if len(pairs) == 1 and pairs[0][0] in names and draw(st.booleans()):
             # a second pair whose function reads the column the first pair replaces: it sees the receiver's column
-            pairs.append([draw(st.sampled_from(["new9"] + [x for x in names if x != pairs[0][0]][:1])),
+            pairs.append([draw(st.sampled_from(["new9"] + [x for x in names if x != pairs[0][0] and x != "_rid_"][:1])),
                           {"how": "callable_copy", "src": pairs[0][0]}])
         plan["pairs"] = pairs
         if fp.get("via") == "marked_by_group_by" and not all(s["how"].startswith("callable") for _, s in pairs):
